@@ -186,3 +186,12 @@ N("flagrange-neg-not-plus-one-guarded", ["C01", "C20"],
 B("variant-wrapping_sub-other-kernel", ["C01"],
   [("src/add.rs", "        self.overflowing_sub(rhs).0\n", "        self.overflowing_add(rhs).0\n")],
   "wrapping_sub|kernel")
+
+# ---- D-zero is flow-aware: a write between the non-zero test and the division kills the guard
+B("dzero-divisor-mutated-after-test", ["C10"],
+  [("src/modular.rs", "        if modulus.is_zero() {\n            return Self::ZERO;\n        }\n\n        // Allocate at least",
+    "        if modulus.is_zero() {\n            return Self::ZERO;\n        }\n        modulus >>= 1;\n\n        // Allocate at least")],
+  "mul_mod->algorithms::div::div")
+N("dzero-unrelated-later-assignment", ["C10"],
+  [("src/algorithms/gcd/mod.rs", "            // will make a lot of progress since `q` will be large.\n            let q = a / b;\n            a -= q * b;\n            swap(&mut a, &mut b);\n            t0 -= q * t1;",
+    "            // will make a lot of progress since `q` will be large.\n            if b == Uint::ONE {\n                a = b;\n                t0 = t1;\n                even = !even;\n                break;\n            }\n            let q = a / b;\n            a -= q * b;\n            swap(&mut a, &mut b);\n            t0 -= q * t1;")])
